@@ -13,6 +13,8 @@ def run(tier, seed):
     _, rep2 = netcommon.mc_and_replay(v, wd, "c01d", 3 if tier == "quick" else 4, False)
     # explicit optimise on a live engine, inside histories (Blocker::optimize)
     _, rep3, _ = enginecommon.histories(v, wd, "blocker", 4 if tier == "quick" else 5)
+    runs, nops = (2, 600) if tier == "quick" else (8, 3000)
+    enginecommon.longhist_stage(v, wd, seed, "blocker", runs, nops)
     vlib.require(rep1["nontrivial"] > 100 and rep3["nontrivial"] > 50, "replay too small")
     v.assumptions += ["equivalence is established through the Ideal: both engines must return an allowed verdict for every request; "
                       "where the Ideal allows several verdicts (ties, unspecified hits) the two engines are additionally not compared with each other"]
